@@ -141,6 +141,12 @@ META = {
         "level_text": "Live: generated DAGs x completion schedules with status queries at every decision point and continuous polling. Crash: kill points over the start-up, execution and shutdown of `blackdagger start` (sampled quick, enumerated thorough) for three DAG shapes with and without prior history.",
         "level_note": "Trusted: the scripted executor's trace as ground truth for the live part; marker files as ground truth for the crash part; the supervisor's call classification.",
     },
+    "C16": {
+        "engine": "crashkit", "design_ref": "DESIGN.md section 3 C16",
+        "technique": "schedule-point injection driven by generated integers: the real first start is held by a ptrace supervisor at the k-th counted system call while a second start / retry is issued; outside-view snapshots + marker-file oracle by phase; sampled k (quick) / every k (thorough)",
+        "level_text": "Enumeration of the system-call boundaries of a real `blackdagger start` as instants for the second start; quick samples them and always covers the start-up window, thorough enumerates all in both modes.",
+        "level_note": "Trusted: the supervisor's hold (only the calling thread stands still); marker lines as ground truth of executions. One open known finding (probe-then-bind window) is counted, not alarmed.",
+    },
 }
 
 NOT_APPLICABLE = {}
